@@ -155,6 +155,44 @@ pub fn compare(ff: &mut Ff, model: &[Vec<u8>]) -> Result<(), Diff> {
     Ok(())
 }
 
+/// Cheap comparison used between the follow-up writes on a crash state: number(), the two
+/// newest items, one seeded older item, nothing beyond the range.  (The full comparison runs
+/// right after the reopen, after the second reopen and at the end.)
+pub fn compare_light(ff: &mut Ff, model: &[Vec<u8>], pick: u64) -> Result<(), Diff> {
+    let n = ff.number();
+    let len = model.len() as u64;
+    if n != len + 1 {
+        return Err(Diff {
+            symptom: "number_mismatch",
+            detail: format!("number()={} but the model has {} items", n, len),
+        });
+    }
+    let mut idx = vec![];
+    if len >= 1 {
+        idx.push(pick % len + 1);
+    }
+    if len >= 2 {
+        idx.push(len - 1);
+    }
+    if len >= 1 {
+        idx.push(len);
+    }
+    for i in idx {
+        read_one(ff, model, i)?;
+    }
+    match ff.retrieve(len + 1) {
+        Ok(None) => Ok(()),
+        Ok(Some(v)) => Err(Diff {
+            symptom: "beyond_range_not_none",
+            detail: format!("retrieve({}) returned {} bytes, {} items exist", len + 1, v.len(), len),
+        }),
+        Err(e) => Err(Diff {
+            symptom: "beyond_range_not_none",
+            detail: format!("retrieve({}) = Err({e}), {} items exist", len + 1, len),
+        }),
+    }
+}
+
 /// One random-access read, compared with the model.
 pub fn read_one(ff: &mut Ff, model: &[Vec<u8>], i: u64) -> Result<(), Diff> {
     match ff.retrieve(i) {
@@ -482,7 +520,7 @@ fn eval_state(h: &mut Hist, plan: &Plan, dc: DataCut, ic: u64, class: &'static s
     if n as usize > lower {
         h.st.count("files.reopen.more_than_lower_bound");
     }
-    let mut model: Vec<Vec<u8>> = h.model[..n as usize].to_vec();
+    let model: Vec<Vec<u8>> = h.model[..n as usize].to_vec();
     if let Err(d) = compare(&mut ff, &model) {
         let w = h.crash_witness(plan, dc, ic, class, Some(n));
         return h.st.violation(
@@ -493,96 +531,114 @@ fn eval_state(h: &mut Hist, plan: &Plan, dc: DataCut, ic: u64, class: &'static s
         );
     }
 
-    // subsequent appends / retrievals / truncations / reopen on that prefix
-    let mut rng = Rng::new(sub);
-    let mut steps: Vec<String> = vec![];
-    let mut diverged: Option<String> = None;
-    // a quarter of the crash states: random-access reads between the follow-up writes
-    let pokes = rng.chance(1, 4);
+    // subsequent appends / retrievals / truncations / reopen on that prefix; a quarter of the
+    // crash states with random-access reads between the writes
+    let pokes = Rng::new(sub ^ 0x9e37).chance(1, 4);
     if pokes {
         h.st.count("files.post_crash.with_random_reads");
     }
-    'follow: {
-        macro_rules! chk {
-            ($what:expr) => {
-                h.st.eval();
-                if let Err(d) = compare(&mut ff, &model) {
-                    diverged = Some(format!("after {}: {}: {}", $what, d.symptom, d.detail));
-                    break 'follow;
+    let Some((mut d, mut steps)) = follow_up(h, ff, n as usize, sub, pokes) else {
+        return;
+    };
+    let mut label = class;
+    if pokes {
+        // attribute: does the same follow-up (same writes) also diverge without the reads?
+        let again = crash::clear_dir(dir)
+            .and_then(|_| plan.materialize(dir, dc, ic))
+            .and_then(|_| Ff::open(dir, h.max, h.compress, None));
+        match again {
+            Ok(ff2) => match follow_up(h, ff2, n as usize, sub, false) {
+                Some((d2, s2)) => {
+                    d = d2;
+                    steps = s2;
                 }
-                if pokes && !model.is_empty() && rng.chance(3, 4) {
-                    let i = rng.range(1, model.len() as u64);
-                    steps.push(format!("retrieve({i})"));
-                    if let Err(d) = read_one(&mut ff, &model, i) {
-                        diverged = Some(format!("after {}: {}: {}", $what, d.symptom, d.detail));
-                        break 'follow;
-                    }
+                None => label = RR,
+            },
+            Err(e) => return h.st.harness_error(format!("re-materialize for attribution: {e}")),
+        }
+    }
+    let mut w = h.crash_witness(plan, dc, ic, class, Some(n));
+    w["post_crash_steps"] = json!(steps);
+    h.st.violation(
+        &format!("{LVL}.post_crash.diverged@{label}"),
+        format!("reopen gave a correct prefix of {n} items, then: {d}"),
+        wt,
+        || w,
+    );
+}
+
+/// Follow-up operations on a reopened crash state (`ff` holds exactly `h.model[..n]`).
+/// Returns the divergence from the model, if any, and the steps taken.
+fn follow_up(h: &mut Hist, mut ff: Ff, n: usize, sub: u64, pokes: bool) -> Option<(String, Vec<String>)> {
+    let dir: &Path = &h.dirs.crash;
+    let mut model: Vec<Vec<u8>> = h.model[..n].to_vec();
+    let mut rng = Rng::new(sub);
+    let mut prng = Rng::new(sub ^ 0x706f6b65);
+    let mut steps: Vec<String> = vec![];
+    macro_rules! chk {
+        ($what:expr, $full:expr) => {
+            h.st.eval();
+            let pick = prng.next_u64();
+            let r = if $full { compare(&mut ff, &model) } else { compare_light(&mut ff, &model, pick) };
+            if let Err(d) = r {
+                return Some((format!("after {}: {}: {}", $what, d.symptom, d.detail), steps));
+            }
+            if pokes && !model.is_empty() && prng.chance(3, 4) {
+                let i = prng.range(1, model.len() as u64);
+                steps.push(format!("retrieve({i})"));
+                if let Err(d) = read_one(&mut ff, &model, i) {
+                    return Some((format!("after {}: {}: {}", $what, d.symptom, d.detail), steps));
                 }
-            };
-        }
-        let n_app = rng.range(1, 2);
-        for _ in 0..n_app {
-            let len = match rng.below(5) {
-                0 => 0,
-                1 => h.max as usize,
-                2 => rng.range(1, 8) as usize,
-                _ => rng.range(0, 60) as usize,
-            };
-            let item = rng.bytes(len.min(200));
-            let num = model.len() as u64 + 1;
-            steps.push(format!("append#{num}({}B)", item.len()));
-            h.st.count("files.post_crash.append");
-            if let Err(e) = ff.append(num, &item) {
-                diverged = Some(format!("append({num}) = Err({e})"));
-                break 'follow;
-            }
-            model.push(item);
-            chk!("append");
-        }
-        if rng.chance(1, 3) && model.len() >= 2 {
-            let t = rng.range(1, model.len() as u64 - 1);
-            steps.push(format!("truncate({t})"));
-            h.st.count("files.post_crash.truncate");
-            if let Err(e) = ff.truncate(t) {
-                diverged = Some(format!("truncate({t}) = Err({e})"));
-                break 'follow;
-            }
-            model.truncate(t as usize);
-            chk!("truncate");
-        }
-        drop(ff);
-        steps.push("reopen".into());
-        h.st.count("files.post_crash.reopen");
-        ff = match Ff::open(dir, h.max, h.compress, None) {
-            Ok(f) => f,
-            Err(e) => {
-                diverged = Some(format!("second reopen = Err({e})"));
-                break 'follow;
             }
         };
-        chk!("reopen");
-        let l = rng.range(0, 40) as usize;
-        let item = rng.bytes(l);
+    }
+    let n_app = rng.range(1, 2);
+    for _ in 0..n_app {
+        let len = match rng.below(5) {
+            0 => 0,
+            1 => h.max as usize,
+            2 => rng.range(1, 8) as usize,
+            _ => rng.range(0, 60) as usize,
+        };
+        let item = rng.bytes(len.min(200));
         let num = model.len() as u64 + 1;
         steps.push(format!("append#{num}({}B)", item.len()));
         h.st.count("files.post_crash.append");
         if let Err(e) = ff.append(num, &item) {
-            diverged = Some(format!("append({num}) = Err({e})"));
-            break 'follow;
+            return Some((format!("append({num}) = Err({e})"), steps));
         }
         model.push(item);
-        chk!("append");
+        chk!("append", false);
     }
-    if let Some(d) = diverged {
-        let mut w = h.crash_witness(plan, dc, ic, class, Some(n));
-        w["post_crash_steps"] = json!(steps);
-        h.st.violation(
-            &format!("{LVL}.post_crash.diverged@{}", if pokes { RR } else { class }),
-            format!("reopen gave a correct prefix of {n} items, then: {d}"),
-            wt,
-            || w,
-        );
+    if rng.chance(1, 3) && model.len() >= 2 {
+        let t = rng.range(1, model.len() as u64 - 1);
+        steps.push(format!("truncate({t})"));
+        h.st.count("files.post_crash.truncate");
+        if let Err(e) = ff.truncate(t) {
+            return Some((format!("truncate({t}) = Err({e})"), steps));
+        }
+        model.truncate(t as usize);
+        chk!("truncate", false);
     }
+    drop(ff);
+    steps.push("reopen".into());
+    h.st.count("files.post_crash.reopen");
+    ff = match Ff::open(dir, h.max, h.compress, None) {
+        Ok(f) => f,
+        Err(e) => return Some((format!("second reopen = Err({e})"), steps)),
+    };
+    chk!("reopen", true);
+    let l = rng.range(0, 40) as usize;
+    let item = rng.bytes(l);
+    let num = model.len() as u64 + 1;
+    steps.push(format!("append#{num}({}B)", item.len()));
+    h.st.count("files.post_crash.append");
+    if let Err(e) = ff.append(num, &item) {
+        return Some((format!("append({num}) = Err({e})"), steps));
+    }
+    model.push(item);
+    chk!("append", true);
+    None
 }
 
 pub fn run_directed(cfg: &Cfg, case: &Directed, dirs: &Dirs, st: &mut Stats) {
